@@ -411,6 +411,18 @@ func (c *symCtx) load(addr ssa.Value) *Sym {
 				return mkPhi(args)
 			}
 		}
+		if mk, ok := a.X.(*ssa.MakeSlice); ok {
+			// a slice made here that stays local (only indexed and measured: never appended to, re-sliced,
+			// stored or passed on) is a row of cells like the array above: an element holds what was stored
+			// into an element
+			if stores, local := localSliceStores(mk); local && len(stores) > 0 {
+				var args []*Sym
+				for _, st := range stores {
+					args = append(args, c.sym(st.Val))
+				}
+				return mkPhi(args)
+			}
+		}
 		var base *Sym
 		if _, isPtrToArr := a.X.Type().Underlying().(*types.Pointer); isPtrToArr {
 			base = c.load(a.X)
@@ -442,6 +454,50 @@ func rootCell(v ssa.Value) *ssa.Alloc {
 		}
 	}
 	return nil
+}
+
+// localSliceStores: the whole-element stores into a slice made by mk, and whether that is all that can ever
+// write it: the slice value is only indexed (each element address only loaded from or stored to) and
+// measured with len/cap. Anything else — append, a re-slice, a store of the slice, an argument, a φ —
+// lets the elements be written, or the slice be replaced, where this function does not see it.
+func localSliceStores(mk *ssa.MakeSlice) ([]*ssa.Store, bool) {
+	refs := mk.Referrers()
+	if refs == nil {
+		return nil, false
+	}
+	var out []*ssa.Store
+	for _, r := range *refs {
+		switch x := r.(type) {
+		case *ssa.DebugRef:
+		case *ssa.Call:
+			if n := calleeName(x); n != "builtin.len" && n != "builtin.cap" {
+				return nil, false
+			}
+		case *ssa.IndexAddr:
+			if x.X != ssa.Value(mk) || x.Referrers() == nil {
+				return nil, false
+			}
+			for _, er := range *x.Referrers() {
+				switch y := er.(type) {
+				case *ssa.DebugRef:
+				case *ssa.UnOp:
+					if y.Op != token.MUL {
+						return nil, false
+					}
+				case *ssa.Store:
+					if y.Addr != ssa.Value(x) {
+						return nil, false
+					}
+					out = append(out, y)
+				default:
+					return nil, false
+				}
+			}
+		default:
+			return nil, false
+		}
+	}
+	return out, true
 }
 
 func directStores(addr ssa.Value) []*ssa.Store {
